@@ -132,12 +132,21 @@ func systematic(t *rapid.T, r *rejecter, c *aeadcase.Case, ct, ad []byte) {
 func TestAEADRejects(t *testing.T) {
 	rapid.Check(t, func(rt *rapid.T) {
 		detrand.Seed(rapid.Uint64().Draw(rt, "entropy"))
-		c := aeadcase.Draw(rt)
+		// All construction routes, among them the two that hand out the per-key primitive itself
+		// ("fullprim": the prefix-aware object the keyset wrapper calls; "keymanager": the registry's
+		// raw primitive): what a failing Decrypt RETURNS is observed there without a wrapper that
+		// replaces it by nil.
+		c := aeadcase.DrawRoutes(rt, aeadcase.RoutesAll)
 		maxpt := 64
 		if rapid.IntRange(0, 4).Draw(rt, "long") == 0 {
 			maxpt = 2048
 		}
-		pt := gen.Bytes(rt, "pt", maxpt)
+		pt := gen.BytesOrNil(rt, "pt", maxpt)
+		if n, big := aeadcase.BigLen(rt, "pt", 200); big {
+			// size class (page / buffer boundaries, 1 MiB); the long-ciphertext operator set applies
+			pt = gen.BytesN(rt, "bigpt", n)
+			evid.Add("size_class_cases", 1)
+		}
 		ad := gen.BytesOrNil(rt, "ad", 128)
 		ct, err := c.P.Encrypt(pt, ad)
 		if err != nil {
@@ -322,27 +331,67 @@ func TestKeysetRejects(t *testing.T) {
 	})
 }
 
-// TestEnvelopeRejects: KMS envelope length-field arithmetic and mutations.
+// TestEnvelopeRejects: KMS envelope length-field arithmetic and mutations, through both
+// constructors and through the keyset / key-manager route (there also behind a TINK output prefix
+// and in a keyset of two envelope keys for one KEK URI whose DEK templates are of different key
+// types).
 func TestEnvelopeRejects(t *testing.T) {
-	templates := []struct {
-		name string
-		f    func() tink.AEAD
-	}{}
-	_ = templates
+	tmpl := map[string]*tinkpb.KeyTemplate{
+		"AES128GCM":     aead.AES128GCMKeyTemplate(),
+		"AES256CTRHMAC": aead.AES256CTRHMACSHA256KeyTemplate(),
+		"XCHACHA":       aead.XChaCha20Poly1305KeyTemplate(),
+		"AES256GCMSIV":  aead.AES256GCMSIVKeyTemplate(),
+	}
+	names := []string{"AES128GCM", "AES256CTRHMAC", "XCHACHA", "AES256GCMSIV"}
 	rapid.Check(t, func(rt *rapid.T) {
 		detrand.Seed(rapid.Uint64().Draw(rt, "entropy"))
 		kek := tk.Must(aeadsubtle.NewAESGCM(gen.BytesN(rt, "kek", 32)))
-		kt := rapid.SampledFrom([]string{"AES128GCM", "AES256CTRHMAC", "XCHACHA", "AES256GCMSIV"}).Draw(rt, "dek")
-		tmpl := map[string]*tinkpb.KeyTemplate{
-			"AES128GCM":     aead.AES128GCMKeyTemplate(),
-			"AES256CTRHMAC": aead.AES256CTRHMACSHA256KeyTemplate(),
-			"XCHACHA":       aead.XChaCha20Poly1305KeyTemplate(),
-			"AES256GCMSIV":  aead.AES256GCMSIVKeyTemplate(),
+		kt := rapid.SampledFrom(names).Draw(rt, "dek")
+		api := rapid.SampledFrom(tk.EnvelopeAPIsAll).Draw(rt, "api")
+		shape := "-"
+		if api == "keyset" {
+			shape = rapid.SampledFrom([]string{"raw-template", "tink-prefix", "two-keys"}).Draw(rt, "shape")
 		}
-		api := rapid.SampledFrom(tk.EnvelopeAPIs).Draw(rt, "api")
-		env, err := tk.Envelope(api, tmpl[kt], kek)
+		var env tink.AEAD
+		var err error
+		var prefix, otherPrefix []byte
+		var id uint32
+		other := ""
+		if shape == "-" || shape == "raw-template" {
+			env, err = tk.Envelope(api, tmpl[kt], kek)
+		} else {
+			id = gen.KeyID(rt, "envid")
+			keys := []tk.EnvelopeKey{{DEK: tmpl[kt], Prefix: tinkpb.OutputPrefixType_RAW, ID: id}}
+			if shape == "tink-prefix" || rapid.Bool().Draw(rt, "first_tink") {
+				keys[0].Prefix = tinkpb.OutputPrefixType_TINK
+				prefix = tk.Prefix(tk.Tink, id)
+			}
+			primary := 0
+			if shape == "two-keys" {
+				// the second key's DEK template is of another key TYPE: two envelope keys for one KEK whose
+				// DEK templates share the type (AES128GCM / AES256GCM) open each other's frames - each
+				// parses the DEK by type only - so for them "another key's prefix" is not a foreign key
+				var rest []string
+				for _, x := range names {
+					if x != kt {
+						rest = append(rest, x)
+					}
+				}
+				other = rapid.SampledFrom(rest).Draw(rt, "dek2")
+				k2 := tk.EnvelopeKey{DEK: tmpl[other], Prefix: tinkpb.OutputPrefixType_TINK, ID: id + 1 + uint32(rapid.IntRange(0, 3).Draw(rt, "id2off"))}
+				otherPrefix = tk.Prefix(tk.Tink, k2.ID)
+				if rapid.Bool().Draw(rt, "second_first") {
+					keys, primary = []tk.EnvelopeKey{k2, keys[0]}, 1
+				} else {
+					keys = append(keys, k2)
+				}
+			}
+			uri, release := tk.KEKURI(kek)
+			env, err = tk.EnvelopeFromURI(uri, primary, keys)
+			release()
+		}
 		if err != nil {
-			rt.Fatalf("envelope constructor %s refuses the supported DEK template %s: %v", api, kt, err)
+			rt.Fatalf("envelope constructor %s (keyset shape %s) refuses the supported DEK template %s: %v", api, shape, kt, err)
 		}
 		pt := gen.Bytes(rt, "pt", 100)
 		ad := gen.BytesOrNil(rt, "ad", 40)
@@ -350,19 +399,32 @@ func TestEnvelopeRejects(t *testing.T) {
 		if err != nil {
 			rt.Fatalf("envelope Encrypt: %v", err)
 		}
-		r := &rejecter{t: rt, p: env, desc: "envelope api=" + api + " dek=" + kt + " pt=" + gen.Hex(pt), valid: [][2][]byte{{ct, ad}}, byKind: map[string]int{}}
+		r := &rejecter{t: rt, p: env, desc: fmt.Sprintf("envelope api=%s shape=%s prefix=%x dek=%s second-key(dek=%s prefix=%x) pt=%s", api, shape, prefix, kt, other, otherPrefix, gen.Hex(pt)), valid: [][2][]byte{{ct, ad}}, byKind: map[string]int{}}
 		if got, err := env.Decrypt(ct, ad); err != nil || !bytes.Equal(got, pt) {
 			rt.Fatalf("%s: genuine envelope rejected: %v", r.desc, err)
 		}
-		n := int(binary.BigEndian.Uint32(ct[:4]))
-		for _, v := range []uint32{0, 1, uint32(n - 1), uint32(n + 1), 4096, 4097, uint32(len(ct) - 4), uint32(len(ct) - 3), uint32(len(ct)), 1 << 31, 1<<31 - 1, 1<<32 - 1, uint32(rapid.Uint32().Draw(rt, "lenfield"))} {
+		pl := len(prefix)
+		if !bytes.HasPrefix(ct, prefix) || len(ct) < pl+4 {
+			rt.Fatalf("%s: ciphertext %s does not start with the output prefix", r.desc, gen.Hex(ct))
+		}
+		frame := ct[pl:]
+		n := int(binary.BigEndian.Uint32(frame[:4]))
+		for _, v := range []uint32{0, 1, uint32(n - 1), uint32(n + 1), 4096, 4097, uint32(len(frame) - 4), uint32(len(frame) - 3), uint32(len(frame)), uint32(len(ct)), 1 << 31, 1<<31 - 1, 1<<32 - 1, uint32(rapid.Uint32().Draw(rt, "lenfield"))} {
 			if int(v) == n {
 				continue
 			}
-			cand := append(binary.BigEndian.AppendUint32(nil, v), ct[4:]...)
+			cand := append(binary.BigEndian.AppendUint32(append([]byte{}, prefix...), v), frame[4:]...)
 			r.mustReject("length-field", cand, ad)
 		}
-		if len(ct) <= 200 {
+		if api == "keyset" && len(ct) <= 200 {
+			// (the key manager hands out the aead2 object: every bit of the prefix and the length field,
+			// one bit of every other byte)
+			for bit := 0; bit < len(ct)*8; bit++ {
+				if bit < (pl+4)*8 || bit%8 == (bit/8)%8 {
+					r.mustReject("flip-all", flipBit(ct, bit), ad)
+				}
+			}
+		} else if len(ct) <= 200 {
 			for bit := 0; bit < len(ct)*8; bit++ {
 				r.mustReject("flip-all", flipBit(ct, bit), ad)
 			}
@@ -376,16 +438,38 @@ func TestEnvelopeRejects(t *testing.T) {
 		}
 		r.mustReject("append", append(append([]byte{}, ct...), 7), ad)
 		r.mustReject("ad", ct, append(append([]byte{}, ad...), 1))
-		// headers only: every length below 8 with arbitrary content
+		// headers only: every length below 8 with arbitrary content, bare and behind the prefix
 		for l := 0; l < 8; l++ {
-			r.mustReject("tiny", gen.BytesN(rt, "tiny", l), ad)
+			tiny := gen.BytesN(rt, "tiny", l)
+			r.mustReject("tiny", tiny, ad)
+			if pl > 0 {
+				r.mustReject("prefix+tiny", append(append([]byte{}, prefix...), tiny...), ad)
+			}
 		}
 		// a DEK ciphertext that does not decrypt to a key of the template type: swap encDEK with garbage of same length
 		garbage := gen.BytesN(rt, "garbage", n)
-		r.mustReject("garbage-dek", append(append(append([]byte{}, ct[:4]...), garbage...), ct[4+n:]...), ad)
+		r.mustReject("garbage-dek", append(append(append([]byte{}, ct[:pl+4]...), garbage...), ct[pl+4+n:]...), ad)
+		// output prefixes (keyset route)
+		if pl > 0 {
+			r.mustReject("prefix-dropped", frame, ad)
+			r.mustReject("prefix-of-CRUNCHY", append(tk.Prefix(tk.Crunchy, id), frame...), ad)
+			r.mustReject("prefix-other-id", append(tk.Prefix(tk.Tink, id^0x80000000), frame...), ad)
+			r.mustReject("prefix-doubled", append(append([]byte{}, prefix...), ct...), ad)
+		} else if api == "keyset" {
+			r.mustReject("prefix-added", append(tk.Prefix(tk.Tink, gen.KeyID(rt, "addid")), ct...), ad)
+		}
+		if other != "" {
+			// the frame behind the other key's prefix: that key unwraps the DEK (same KEK) but reads it as a
+			// key of another type (another algorithm on the payload: forgery bound of the shortest tag)
+			r.mustReject("prefix-of-second-key", append(append([]byte{}, otherPrefix...), frame...), ad)
+		}
 		evid.Add("reject_candidates", int64(r.n))
-		evid.Case("envelope/"+api+"/"+kt, true, evid.NewH().S(api).S(kt).B(ct).Sum(), func() any {
-			return map[string]any{"api": api, "dek": kt, "pt": gen.Hex(pt), "candidates": r.n}
+		class := "envelope/" + api + "/" + kt
+		if shape != "-" {
+			class = fmt.Sprintf("envelope/%s:%s:prefix=%d/%s", api, shape, pl, kt)
+		}
+		evid.Case(class, true, evid.NewH().S(api).S(shape).S(kt).S(other).B(ct).Sum(), func() any {
+			return map[string]any{"api": api, "shape": shape, "dek": kt, "second_dek": other, "pt": gen.Hex(pt), "candidates": r.n}
 		})
 	})
 }
